@@ -101,6 +101,10 @@ def make_tree_doc(rng, like=None):
             for st_ in pool_[:rng.randint(1, 3)]:
                 text += "  " + st_ + "\n"
             text += "END;\n"
+        if rng.random() < 0.3:
+            text += rng.choice(["BEGIN PAUP;\n  set autoclose=yes;\n  log start;\nEND;\n", "BEGIN NOTES;\n  TEXT TAXON=1 TEXT='a note';\nEND;\n",
+                                "BEGIN ASSUMPTIONS;\n  OPTIONS DEFTYPE=unord;\nEND;\n"])
+        multiline = rng.random() < 0.3
         cols = []
         for b in range(nblocks):
             text += "BEGIN TREES;\n"
@@ -127,6 +131,8 @@ def make_tree_doc(rng, like=None):
                     for i2, l in sorted(enumerate(labs), key=lambda x: -len(x[1])):
                         s = s.replace(quote(l), "\x00%d\x00" % num[l])
                     s = s.replace("\x00", "")
+                if multiline and "'" not in s and "[" not in s:
+                    s = s.replace(",", ",\n      ")       # a statement may span lines
                 text += "  TREE %s = %s\n" % (rng.choice(["t%d" % i, "'tree %d'" % i]), s)
                 if block_comments and rng.random() < 0.3:
                     text += "  [between trees]\n"
@@ -187,6 +193,8 @@ class C13(Machine):
                     opts["extract_comment_metadata"] = rng.random() < 0.5
                 if rng.random() < 0.2:
                     opts["suppress_internal_node_taxa"] = False
+                if d["schema"] == "nexus" and rng.random() < 0.2:
+                    opts["store_ignored_blocks"] = True
             docs_ = [d]
             if rng.random() < 0.4:
                 docs_.append(make_tree_doc(rng, like=d))      # same labels, other trees, other TRANSLATE numbering
@@ -243,8 +251,17 @@ class C13(Machine):
                 r_all = dendropy.TreeList.get(data=text, schema=schema, **opts)
                 r_cols = [dendropy.TreeList.get(data=text, schema=schema, collection_offset=i, **opts) for i in range(len(cols))]
             except Exception as e:
-                rec.probe("reference_read_failed")      # C20/C02 territory: nothing to compare routes against
-                rec.ev("reference_failed", type(e).__name__)
+                # does every route refuse the text (C20's subject), or only this one?
+                try:
+                    n_it = len(list(dendropy.Tree.yield_from_files(files=[SimFile(None, "/sim/doc", text)], schema=schema, **opts)))
+                except Exception:
+                    rec.probe("reference_read_failed")      # C20/C02 territory: nothing to compare routes against
+                    rec.ev("reference_failed", type(e).__name__)
+                    return
+                import traceback
+                fn = [f.name for f in traceback.extract_tb(e.__traceback__) if "dendropy" in f.filename]
+                rec.violation("ROUTE_FAILED", {"schema": schema, "route": "treelist_get", "exception": type(e).__name__, "function": fn[-1] if fn else "harness"},
+                              "TreeList.get raised %s: %s for a text (options %s) from which the file iterator delivers %d trees" % (type(e).__name__, e, opts, n_it))
                 return
             ref_all = [canon_tree(t) for t in r_all]
             ref_cols = [[canon_tree(t) for t in c] for c in r_cols]
